@@ -493,6 +493,10 @@ func execute(t *testing.T, sc scenario) (out outcome) {
 					}
 					time.Sleep(time.Duration(sc.RetryDelayMs+50) * time.Millisecond)
 					vx.Wait()
+					if k == 99 {
+						fail("a caller is neither inside its function nor finished %v after its last attempt (retry delay %d ms)", 100*time.Duration(sc.RetryDelayMs+50)*time.Millisecond, sc.RetryDelayMs)
+						return false
+					}
 				}
 			}
 			mu.Lock()
